@@ -101,3 +101,31 @@ Theorem C06_reach_presentation : forall g X, wf_graph g -> incl X (nodes g) ->
   NoDup (reach g X) /\ forall y, In y (reach g X) <-> exists x, In x X /\ reaches g x y.
 Proof. exact PMC.Proofs.GraphP.reach_exact. Qed.
 Print Assumptions C06_reach_presentation.
+
+(* ---- what FAILS with fairness constraints (known finding KF-fair-capture): the fresh label
+   'fair' avoids the labels of K but not the atoms of the formula, so consistently renaming an
+   atom (here p, which labels no state) to "fair" changes the answer of the fair LTL checker —
+   in the faithful model exactly as in the code ---- *)
+From Coq Require Import String.
+Theorem C06_fair_capture_refuted :
+  exists K F g sigma,
+    relabel sigma K = K /\ inj_on sigma (rel_atoms K g) /\ ltl_path g = true /\
+    ltl_modelcheck_fair K (FA g) F = Ok [0; 1; 2] /\
+    ltl_modelcheck_fair (relabel sigma K) (FA (map_atoms sigma g)) F = Ok [1].
+Proof.
+  exists (mkK [(0, [0; 2]); (1, [1]); (2, [0; 1; 2])] [] [(0, []); (1, ["q"%string]); (2, ["q"%string])]),
+         [[0; 1; 2]],
+         (FImp (FR (FAtom "q"%string) (FAtom "p"%string)) (FF (FBool false))),
+         (fun a => if String.eqb a "p"%string then "fair"%string else a).
+  split; [vm_compute; reflexivity|]. split.
+  - intros a b Ha Hb E.
+    assert (Hab : forall x, rel_atoms (mkK [(0, [0; 2]); (1, [1]); (2, [0; 1; 2])] [] [(0, []); (1, ["q"%string]); (2, ["q"%string])])
+                     (FImp (FR (FAtom "q"%string) (FAtom "p"%string)) (FF (FBool false))) x -> x = "q"%string \/ x = "p"%string).
+    { intros x [Hx|[s Hs]].
+      - simpl in Hx. destruct Hx as [Hx|[Hx|[]]]; auto.
+      - unfold labelled, labels_of in Hs. simpl in Hs.
+        destruct s as [|[|[|s]]]; simpl in Hs; try contradiction; destruct Hs as [Hs|[]]; auto. }
+    destruct (Hab a Ha) as [-> | ->]; destruct (Hab b Hb) as [-> | ->]; vm_compute in E; congruence.
+  - split; [reflexivity|]. split; vm_compute; reflexivity.
+Qed.
+Print Assumptions C06_fair_capture_refuted.
